@@ -43,6 +43,7 @@ package rtpdump
 //@ modifies nothing
 
 //@ func (Packet).Marshal
+//@ deadreturn 1
 //@ props C36
 //@ observe len(p.Payload)
 //@ observe p.Offset
@@ -70,6 +71,7 @@ package rtpdump
 
 // The round-trip clause: decoding what the encoder produced gives the packet back.
 //@ func specRoundTripPacket
+//@ deadreturn 1
 //@ props C36
 //@ requires specRepresentable(p)
 //@ ensures err == nil && ret0.Offset == p.Offset && ret0.IsRTCP == p.IsRTCP && len(ret0.Payload) == len(p.Payload)
@@ -91,6 +93,7 @@ package rtpdump
 //@ modifies elems(buf)
 
 //@ func (*Reader).Next
+//@ deadreturn 1
 //@ props C36 C37
 //@ requires r != nil && r.reader != nil
 //@ requires ghost(rdpos) < 1<<40 && ufint("streamlen") < 1<<40
